@@ -161,6 +161,10 @@ def cleanup (f : Flags) (p : List Nat) : Res :=
           if 1 < buf1.length then .ok [if sep then SLASH else DOT] else .oob
         else if dest < buf1.length then .ok (buf1.take dest) else .oob
 
+/-- The in-place model compiled exactly as written.  (`LA/Lemmas/PathCleanFast.lean` gives later modules a
+proved linear-time replacement for `cleanup`; the `pathclean` engine keeps running this literal one.) -/
+def cleanupLiteral (f : Flags) (p : List Nat) : Res := cleanup f p
+
 /-! ### Reference semantics on components (what the theorems compare the C loop with) -/
 
 /-- Split at every '/': `"a//b/"` is `["a", "", "b", ""]`. -/
